@@ -1,7 +1,7 @@
 \* thorough tier: larger case space (both recipient accounts active,
 \* owner and foreign finalize, sends that were never locked); larger stratified sample for replay
 CONSTANTS
-  Dev = {"LateLockTrustsReply", "StrippedUnnoticed", "LockTrustsSlate"}
+  Dev = {"LateLockTrustsReply", "StrippedUnnoticed", "LockTrustsSlate", "SenderKeyFromActive"}
   Amts = {1000, 1001, 59975, 60000, 70000}
   IncFees = {FALSE, TRUE}
   NChanges = {1, 2}
